@@ -171,6 +171,12 @@ def fill (sc : Sc) (cl : Clip) (x y : Array Nat) (rg : Array (Nat × Nat)) : Fil
     Sn := Sn.setIfInBounds 0 ys
     Ly := Ly.setIfInBounds 0 n
     tS := tS.setIfInBounds (0 * cols + n) .ysuf
+  -- ... or delete all of y (the move the loop over row 0 records at (0, n)); proposed_fixes/C02-row0-pointer.patch
+  let d_n := go + ge * (n : Int)
+  if d_n > Sn.getD 0 MIN then
+    Sn := Sn.setIfInBounds 0 d_n
+    Ly := Ly.setIfInBounds 0 0
+    tS := tS.setIfInBounds (0 * cols + n) .del
   -- ---------------------------------------------------------------- for j in 1..=n
   for j in rng 1 (n + 1) do
     let curr := j % 2
